@@ -109,27 +109,32 @@ func init() {
 			if body == nil {
 				return fmt.Errorf("newUClientConnection not found in u_connection.go")
 			}
-			isSel := func(e ast.Expr, x, sel string) bool {
+			// (receiver and local variable names are not significant: `<x>.config = f(…, <local>)` before `<x>.preSetup()`)
+			selName := func(e ast.Expr, sel string) bool {
 				se, ok := e.(*ast.SelectorExpr)
 				if !ok || se.Sel.Name != sel {
 					return false
 				}
-				id, ok := se.X.(*ast.Ident)
-				return ok && id.Name == x
+				_, ok = se.X.(*ast.Ident)
+				return ok
 			}
 			preSetupPos, assignPos := token.NoPos, token.NoPos
+			coverFn := ""
 			ast.Inspect(body, func(n ast.Node) bool {
 				switch x := n.(type) {
 				case *ast.CallExpr:
-					if isSel(x.Fun, "s", "preSetup") && preSetupPos == token.NoPos {
+					if selName(x.Fun, "preSetup") && preSetupPos == token.NoPos {
 						preSetupPos = x.Pos()
 					}
 				case *ast.AssignStmt:
-					if len(x.Lhs) == 1 && len(x.Rhs) == 1 && isSel(x.Lhs[0], "s", "config") {
+					if len(x.Lhs) == 1 && len(x.Rhs) == 1 && selName(x.Lhs[0], "config") {
 						if call, ok := x.Rhs[0].(*ast.CallExpr); ok {
 							for _, a := range call.Args {
-								if id, ok := a.(*ast.Ident); ok && id.Name == "params" && assignPos == token.NoPos {
+								if _, ok := a.(*ast.Ident); ok && assignPos == token.NoPos {
 									assignPos = x.Pos()
+									if id, ok := call.Fun.(*ast.Ident); ok {
+										coverFn = id.Name
+									}
 								}
 							}
 						}
@@ -138,12 +143,126 @@ func init() {
 				return true
 			})
 			if preSetupPos == token.NoPos {
-				return fmt.Errorf("newUClientConnection: no call of s.preSetup()")
+				return fmt.Errorf("newUClientConnection: no call of preSetup()")
 			}
 			covers := assignPos != token.NoPos && assignPos < preSetupPos
 			w.P("/-- u_connection.go newUClientConnection: `s.config = f(…, params)` precedes `s.preSetup()` (the enforced")
 			w.P("    limits are derived from a Config recomputed from the advertised transport parameters) -/")
 			w.P("def specConfigCoversAdvertised : Bool := %v", covers)
+
+			// HOW that function derives a Config field: `exact` = the assignment to the field does not read the field
+			// itself (c.F = conv(p.X)); otherwise it combines the caller's value with the advertised one (max(c.F, …)).
+			exact := map[string]bool{}
+			if coverFn != "" {
+				var fbody *ast.BlockStmt
+				for _, d := range uf.Decls {
+					if fd, ok := d.(*ast.FuncDecl); ok && fd.Recv == nil && fd.Name.Name == coverFn {
+						fbody = fd.Body
+					}
+				}
+				if fbody != nil {
+					ast.Inspect(fbody, func(n ast.Node) bool {
+						as, ok := n.(*ast.AssignStmt)
+						if !ok || len(as.Lhs) != 1 || len(as.Rhs) != 1 {
+							return true
+						}
+						lhs, ok := as.Lhs[0].(*ast.SelectorExpr)
+						if !ok {
+							return true
+						}
+						readsSelf := false
+						ast.Inspect(as.Rhs[0], func(m ast.Node) bool {
+							if se, ok := m.(*ast.SelectorExpr); ok && se.Sel.Name == lhs.Sel.Name {
+								readsSelf = true
+							}
+							return true
+						})
+						// (the last assignment to a field decides)
+						exact[lhs.Sel.Name] = !readsSelf
+						return true
+					})
+				}
+			}
+			w.P("/-- u_connection.go %s: MaxIncomingStreams and MaxIncomingUniStreams are assigned from the advertised", coverFn)
+			w.P("    parameters alone (the assignment does not read the Config field itself): enforced = advertised -/")
+			w.P("def specStreamCountsExact : Bool := %v", covers && exact["MaxIncomingStreams"] && exact["MaxIncomingUniStreams"])
+			w.P("/-- … and so is InitialConnectionReceiveWindow -/")
+			w.P("def specConnWindowExact : Bool := %v", covers && exact["InitialConnectionReceiveWindow"])
+		}
+		// shape fact: the function of connection.go that builds a stream flow controller (the caller of
+		// flowcontrol.NewStreamFlowController): does the receive window it passes (3rd argument) depend on the
+		// stream id it was called with, i.e. on the KIND of stream? (local names are followed through assignments)
+		{
+			cf, err := parser.ParseFile(c.Fset, filepath.Join(c.Repo, "connection.go"), nil, 0)
+			if err != nil {
+				return err
+			}
+			found, depends := false, false
+			for _, d := range cf.Decls {
+				fd, ok := d.(*ast.FuncDecl)
+				if !ok || fd.Body == nil {
+					continue
+				}
+				var call *ast.CallExpr
+				ast.Inspect(fd.Body, func(n ast.Node) bool {
+					if ce, ok := n.(*ast.CallExpr); ok && call == nil {
+						if se, ok := ce.Fun.(*ast.SelectorExpr); ok && se.Sel.Name == "NewStreamFlowController" {
+							call = ce
+						}
+					}
+					return true
+				})
+				if call == nil || len(call.Args) < 4 {
+					continue
+				}
+				found = true
+				idParams := map[string]bool{}
+				for _, f := range fd.Type.Params.List {
+					if se, ok := f.Type.(*ast.SelectorExpr); ok && se.Sel.Name == "StreamID" {
+						for _, n := range f.Names {
+							idParams[n.Name] = true
+						}
+					}
+				}
+				assigns := map[string][]ast.Expr{}
+				ast.Inspect(fd.Body, func(n ast.Node) bool {
+					if as, ok := n.(*ast.AssignStmt); ok && len(as.Lhs) == len(as.Rhs) {
+						for i, l := range as.Lhs {
+							if id, ok := l.(*ast.Ident); ok {
+								assigns[id.Name] = append(assigns[id.Name], as.Rhs[i])
+							}
+						}
+					}
+					return true
+				})
+				seen := map[string]bool{}
+				var visit func(e ast.Expr)
+				visit = func(e ast.Expr) {
+					ast.Inspect(e, func(m ast.Node) bool {
+						id, ok := m.(*ast.Ident)
+						if !ok {
+							return true
+						}
+						if idParams[id.Name] {
+							depends = true
+						}
+						if !seen[id.Name] {
+							seen[id.Name] = true
+							for _, r := range assigns[id.Name] {
+								visit(r)
+							}
+						}
+						return true
+					})
+				}
+				visit(call.Args[2])
+			}
+			if !found {
+				return fmt.Errorf("connection.go: no caller of flowcontrol.NewStreamFlowController found")
+			}
+			w.P("/-- connection.go (the caller of flowcontrol.NewStreamFlowController): the receive window a new stream starts")
+			w.P("    with depends on the stream id, i.e. a spec-driven client uses the window advertised for that KIND of stream -/")
+			w.P("def streamWindowPerKind : Bool := %v", depends)
 		}
 		// the built-in specs
 		fn := filepath.Join(c.Repo, "u_parrot.go")
